@@ -10,6 +10,7 @@
 #include <string.h>
 #include <stdarg.h>
 #include <time.h>
+#include <limits.h>
 
 static const size_t SIZES[] = { 1, 2, 4, 8, 3, 12, 16, 24 };
 static const int ALGOS[] = { CSTL_SORT_ALGORITHM_QUICK, CSTL_SORT_ALGORITHM_QUICK_R, CSTL_SORT_ALGORITHM_QUICK_M, CSTL_SORT_ALGORITHM_HEAP, -1, 4, 2897234 };
@@ -34,7 +35,11 @@ static int cmp_key(const void *a, const void *b, void *priv)
     if (!(in_array(a) || a == (void *)g_scratch || a == priv) || !(in_array(b) || b == (void *)g_scratch || b == priv)) {
         /* the probe of a search is passed as `a`; it lives outside the array and is registered through g_probe */
     }
-    return (int)*(const unsigned char *)a - (int)*(const unsigned char *)b;
+    {
+        int d = (int)*(const unsigned char *)a - (int)*(const unsigned char *)b;
+        if (g_sz == 3 || g_sz == 12) return d < 0 ? INT_MIN : d > 0 ? INT_MAX : 0;      /* for two element sizes the comparator answers with extreme magnitudes */
+        return d;
+    }
 }
 static unsigned long swap_calls;
 static int poisoned_scratch;
